@@ -88,6 +88,8 @@ Maps == {<<>>, <<"A", "B">>, <<"A", "@ignore">>, <<"Z", "A">>, <<"B", "@panic">>
 Inputs == <<0, 1, 2, 9>>
 \* underlying kinds other than int: float64 and string enums (abstract values 0, 1 are materialised as 0.5 / 1.5 and "x" / "y")
 Kinds == {"float", "string"}
+BigNames == <<"A", "B", "C", "D", "F", "G", "H", "I", "J", "K">>     \* (E is the name of the enum type itself)
+BigEnum == [i \in 1..10 |-> [n |-> BigNames[i], v |-> i - 1]]
 Trs == {<<"A", "B">>, <<"B", "C">>, <<"A", "Z">>}
 Base == [tr |-> <<>>, same |-> FALSE, kind |-> "int"]
 Progs(maxLen) ==
@@ -100,6 +102,9 @@ Progs(maxLen) ==
            s \in E, t \in E, x \in Trs, m \in {<<>>, <<"A", "C">>, <<"A", "@ignore">>, <<"B", "A">>}, u \in {"@error", "@ignore"}}
   \cup {[kind |-> k, tr |-> <<>>, same |-> FALSE, src |-> s, tgt |-> t, map |-> <<>>, unknown |-> u, rootErr |-> TRUE, pos |-> "top", enumOn |-> TRUE] :
            k \in Kinds, s \in E, t \in E, u \in {"@error", "@ignore", "A"}}
+  \* one large enum (ten members with distinct values)
+  \cup {[kind |-> "int", tr |-> <<>>, same |-> sm, src |-> BigEnum, tgt |-> BigEnum, map |-> <<>>, unknown |-> u, rootErr |-> TRUE, pos |-> ps, enumOn |-> TRUE] :
+           sm \in BOOLEAN, u \in {"@error", "@ignore"}, ps \in {"top", "field"}}
   \* the same enum type on both sides
   \* (enum:map lines are only enumerated on methods whose own pair is the enum pair: a nested pair becomes a generated method)
   \cup {q \in {[kind |-> "int", tr |-> <<>>, same |-> TRUE, src |-> s, tgt |-> s, map |-> m, unknown |-> u, rootErr |-> e, pos |-> ps, enumOn |-> TRUE] :
